@@ -258,15 +258,24 @@ def _check_one(args):
     ran = []
     t = time.time()
     try:
-        for pid in FILES[m["file"]]:
-            p = subprocess.run(["/venv/bin/python", "-m", "vpbt", pid, "--tier", "quick", "--no-evidence", "--nproc", "4"], cwd=VERIF, capture_output=True, text=True, timeout=2400, env=dict(os.environ, VERIF_REPO=str(repo), VPBT_SPEC_STRIDE="3", VPBT_FOUND_DIR=str(SCR / f"found{w}")))
-            ran.append((pid, p.returncode))
-            if p.returncode == 1:
-                sig = next((l.replace("violation-detail: ", "").split(" :: ")[0] for l in p.stdout.splitlines() if l.startswith("violation-detail")), "")
-                caught = (pid, sig)
-                break
-            if p.returncode == 2:
-                caught = (pid, "HARNESS-ERROR " + (p.stdout.strip().splitlines() or [""])[-1][:100])
+        # phase 1: every 8th shard of every relevant check (seconds each); phase 2: every 2nd shard
+        for stride in (os.environ.get("AUTOMUT_STRIDE1", "8"), os.environ.get("AUTOMUT_STRIDE2", "2")):
+            for pid in FILES[m["file"]]:
+                try:
+                    p = subprocess.run(["/venv/bin/python", "-m", "vpbt", pid, "--tier", "quick", "--no-evidence", "--nproc", "4"], cwd=VERIF, capture_output=True, text=True, timeout=900, env=dict(os.environ, VERIF_REPO=str(repo), VPBT_SPEC_STRIDE=stride, VPBT_FOUND_DIR=str(SCR / f"found{w}")))
+                except subprocess.TimeoutExpired:
+                    ran.append((pid, "timeout"))
+                    caught = (pid, "TIMEOUT: the check did not finish within 900 s (the unchanged tree needs seconds): the mutant hangs")
+                    break
+                ran.append((pid, p.returncode))
+                if p.returncode == 1:
+                    sig = next((l.replace("violation-detail: ", "").split(" :: ")[0] for l in p.stdout.splitlines() if l.startswith("violation-detail")), "")
+                    caught = (pid, sig)
+                    break
+                if p.returncode == 2:
+                    caught = (pid, "HARNESS-ERROR " + (p.stdout.strip().splitlines() or [""])[-1][:100])
+                    break
+            if caught:
                 break
     finally:
         f.write_text(orig)
